@@ -8,7 +8,7 @@
     lr.Parser.Parse / ParseAndBuildAST, for every grammar, table and input. *)
 From Coq Require Import List ZArith.
 From Algo.Grammar Require Import CFG.
-From Algo.C11 Require Import Model ModelPrec ModelSLR ModelLR1 Spec Proofs ProofsTerm ProofsOracle ProofsPrec ProofsPrecExpr ProofsLR0 ProofsSLR ProofsCLR ProofsLALR ProofsChain ProofsChain2 ProofsFuel ProofsGen ProofsClosure1 ProofsComplete ProofsCompleteSLR ProofsCompleteLALR ProofsTerm2.
+From Algo.C11 Require Import Model ModelPrec ModelSLR ModelLR1 Spec Proofs ProofsTerm ProofsOracle ProofsPrec ProofsPrecExpr ProofsLR0 ProofsSLR ProofsCLR ProofsLALR ProofsChain ProofsChain2 ProofsFuel ProofsGen ProofsClosure1 ProofsComplete ProofsCompleteSLR ProofsCompleteLALR ProofsTerm2 ProofsTerm3 ProofsTerm4 ProofsTerm5.
 Import ListNotations.
 
 (** Callbacks.  [Parse(tokenF, prodF)] takes two optional callbacks (either may be nil) and
@@ -528,17 +528,12 @@ Proof.
   split; [exact (proj1 hang_G_built)|]. split; [exact (proj2 hang_G_built)|]. exact hang_G_hangs.
 Qed.
 
-(** NOT proved: the same statement for the SLR and LALR tables.  The proof above does not
+(** The same statement for the SLR and LALR tables.  The proof for the canonical tables does not
     transfer: it rests on the valid-prefix property (an ACTION entry for state and token implies
     that the consumed input followed by the token is a prefix of a sentence), which only the
     canonical LR(1) lookaheads have; SLR and LALR tables may perform reductions on a token that
-    cannot follow and detect the error later.  Remaining obligation: a run of consecutive
-    reductions of the driver on a fixed lookahead over a conflict-free SLR / LALR table is finite
-    (a cycle of such reductions returns to the same stack, hence exhibits A =>+ A inside a state
-    of the LR(0) automaton, and the FOLLOW / merged lookaheads of the items of that cycle then
-    collide with the action contributed by the item that introduced A into the state).  For
-    these tables [term_ok 400] is evaluated on every table on every run and
-    [C11_driver_terminates] applies to the tables that pass it. *)
+    cannot follow and detect the error later.  What has to be shown is that a run of consecutive
+    reductions of the driver on a fixed lookahead is finite. *)
 Definition C11_slr_terminates_full : Prop :=
   forall (G : gram) (fuel : nat) (tbl : table) (w : list nat),
     valid_grammar G -> generating G -> build_slr fuel G [] = BuiltOk tbl ->
@@ -548,6 +543,52 @@ Definition C11_lalr_terminates_full : Prop :=
   forall (G : gram) (fuel : nat) (tbl : table) (w : list nat),
     valid_grammar G -> generating G -> build_lalr fuel G [] = BuiltOk tbl ->
     exists F, parse F tbl w <> Hang /\ forall f, F <= f -> parse f tbl w = parse F tbl w.
+
+(** TERMINATION ON EVERY INPUT over the tables of the modelled SLR(1) construction: THEOREM.
+    Proof (ProofsTerm3.v – ProofsTerm5.v).  (1) Combinatorics, for any table: a run of
+    reductions on a fixed lookahead that is longer than the number of stacks of bounded height
+    never stops — either a stack repeats, or the stack has grown above a state that repeats on
+    top of itself and the run between the two occurrences, which does not look below the lower
+    one, can be replayed for ever ([long_infinite]).  (2) No such infinite run exists from a stack
+    the driver can have ([no_infinite]): every stack of the run spells a viable prefix that
+    derives the consumed input, with derivation forests growing by one node per reduction; every
+    item of an LR(0) state is valid for the spelled prefix with some right context (the state is
+    the closure of its kernel; every non-terminal generates), and the driver reconstructs every
+    right-sentential form of a conflict-free table in exactly as many steps as the forest has
+    nodes (big-step completeness with step counts); so each stack of the run is reached by the
+    driver, arbitrarily late, on a sentence (consumed input)(right context); among these sentences
+    infinitely many have the same next token, the moves up to that token do not depend on what
+    follows it, and the accepting run on one of them ([C11_slr_complete]) is finite —
+    contradiction.  (3) Hence every run of reductions stops within a bound, the next move
+    shifts, accepts or rejects, and induction on the remaining input concludes.  The bound is not
+    given in closed form. *)
+Theorem C11_slr_terminates : C11_slr_terminates_full.
+Proof.
+  intros G fuel tbl w Hv Hg Hb. destruct (canonical fuel G) as [C|] eqn:EC.
+  - destruct (slr_no_hang G Hv Hg fuel C EC tbl Hb w) as [F HF]. exists F. split; [exact HF|].
+    intros f Hle. now apply parse_fuel_irrelevant.
+  - unfold build_slr, slr_raw in Hb. rewrite EC in Hb. discriminate.
+Qed.
+
+(** Hence the full [recognises] clause for the modelled SLR(1) construction. *)
+Theorem C11_slr_recognises :
+  forall (G : gram) (fuel : nat) (tbl : table),
+    valid_grammar G -> generating G -> build_slr fuel G [] = BuiltOk tbl -> recognises G tbl.
+Proof.
+  intros G fuel tbl Hv Hg Hb w.
+  destruct (C11_slr_terminates G fuel tbl w Hv Hg Hb) as [F [HF Hm]]. exists F. split; [exact Hm|].
+  destruct (parse F tbl w) as [evs|r e|] eqn:E; [| |congruence].
+  - exact (C11_slr_parser_sound G fuel [] tbl F w evs (proj1 (proj1 Hv)) Hb E).
+  - intros HL. destruct (C11_slr_complete G fuel tbl w Hv Hb HL) as [f [evs Hf]].
+    assert (Hnh : parse f tbl w <> Hang) by (rewrite Hf; discriminate).
+    pose proof (parse_fuel_irrelevant tbl w f (Nat.max F f) Hnh (Nat.le_max_r _ _)) as E1.
+    pose proof (Hm (Nat.max F f) (Nat.le_max_l _ _)) as E2. congruence.
+Qed.
+
+Theorem C11_full_slr_clause :
+  forall (G : gram) (fuel : nat) (t : table),
+    valid_grammar G -> reduced G -> build_slr fuel G [] = BuiltOk t -> recognises G t.
+Proof. intros G fuel t Hv [_ Hg]. exact (C11_slr_recognises G fuel t Hv Hg). Qed.
 
 (** Witness checker for long sentences: a production sequence accepted by [lm_check] is a
     leftmost derivation of the string. *)
@@ -645,3 +686,6 @@ Print Assumptions C11_clr_terminates.
 Print Assumptions C11_clr_recognises.
 Print Assumptions C11_full_clr_clause.
 Print Assumptions C11_nongenerating_hangs_refuted.
+Print Assumptions C11_slr_terminates.
+Print Assumptions C11_slr_recognises.
+Print Assumptions C11_full_slr_clause.
